@@ -152,6 +152,9 @@ func (t *tcpTransport) Receive(ctx context.Context) (envelope, error) {
 
 	t.ctxConn.SetReadContext(ctx)
 
+	// Each envelope gets the whole read budget, whatever happened to the previous one
+	t.limitedReader.N = t.ReadLimit
+
 	var raw rawEnvelope
 	if err := t.decoder.Decode(&raw); err != nil {
 		if errors.Is(err, io.EOF) {
@@ -160,7 +163,6 @@ func (t *tcpTransport) Receive(ctx context.Context) (envelope, error) {
 		return nil, fmt.Errorf("tcp transport: receive: %w", err)
 	}
 
-	t.limitedReader.N = t.ReadLimit
 	return raw.toEnvelope()
 }
 
